@@ -202,16 +202,17 @@ def finalize (s : Store) (acct o now : Nat) (csrOk signOk updFail : Bool) : Stor
         else if !signOk then (s1, .ise)
         else
           let cid := s1.certs.length
-          let s2 := { s1 with certs := s1.certs ++ [{ order := o, acct := ord.acct }] }
+          let s2 := { s1 with certs := s1.certs ++ [({ order := o, acct := ord.acct } : Cert)] }
           if updFail then (s2, .ise)
           else match s2.orders[o]? with
             | none => (s2, .ise)
             | some ord2 => (setOrder s2 o ord2 .valid (some cid), .ok .valid)
 
-def indexOf (s : Store) (acct : Nat) : List Nat :=
-  match s.index.find? (·.1 == acct) with
-  | some e => e.2
-  | none => []
+/-- acme_account_orders_index entry of an account: `none` = no entry; `some []` = an entry whose
+    value is empty (what `save(nil)` leaves behind on bbolt: `Put(key, nil)` stores a zero-length
+    value and `Get` returns it without error), on which the next `json.Unmarshal` fails. -/
+def indexOf (s : Store) (acct : Nat) : Option (List Nat) :=
+  (s.index.find? (·.1 == acct)).map (·.2)
 
 def setIndex (s : Store) (acct : Nat) (ids : List Nat) : Store :=
   { s with index := (acct, ids) :: s.index.filter (·.1 != acct) }
@@ -227,21 +228,30 @@ def pollLoop (s : Store) (now : Nat) : List Nat → Store × Option (List Nat)
       | (s2, none) => (s2, none)
       | (s2, some keep) => (s2, some (if st = .pending then o :: keep else keep))
 
-/-- nosql updateAddOrderIDs(accID, false, add…) -/
+/-- nosql updateAddOrderIDs(accID, false, add…): an unreadable (empty) entry is an error before
+    anything is updated; nothing is written when the list was and stays empty; an emptied list is
+    written as nil (see `indexOf`). -/
 def pollIndex (s : Store) (acct now : Nat) (add : List Nat) : Store × Option (List Nat) :=
-  match pollLoop s now (indexOf s acct) with
-  | (s1, none) => (s1, none)
-  | (s1, some keep) => (setIndex s1 acct (keep ++ add), some (keep ++ add))
+  match indexOf s acct with
+  | some [] => (s, none)
+  | e =>
+    let old := e.getD []
+    match pollLoop s now old with
+    | (s1, none) => (s1, none)
+    | (s1, some keep) =>
+      let nu := keep ++ add
+      if old = [] ∧ nu = [] then (s1, some [])
+      else (setIndex s1 acct nu, some nu)
 
 /-- newAuthorization for the identifiers of a new order; `nch` = number of challenges of each -/
 def createAuthzs (s : Store) (acct exp : Nat) : List Nat → Store × List Nat
   | [] => (s, [])
   | n :: ns =>
     let c0 := s.chals.length
-    let s1 := { s with chals := s.chals ++ List.replicate n { acct := acct, status := .pending } }
+    let s1 := { s with chals := s.chals ++ List.replicate n ({ acct := acct, status := .pending } : Chal) }
     let a := s1.authzs.length
     let s2 := { s1 with authzs := s1.authzs ++
-      [{ acct := acct, status := .pending, expires := exp, chals := List.range' c0 n }] }
+      [({ acct := acct, status := .pending, expires := exp, chals := List.range' c0 n } : Authz)] }
     match createAuthzs s2 acct exp ns with
     | (s3, as) => (s3, a :: as)
 
@@ -254,7 +264,7 @@ def newOrder (s : Store) (acct now : Nat) (nch : List Nat) : Store × Resp :=
     | (s1, azs) =>
       let o := s1.orders.length
       let s2 := { s1 with orders := s1.orders ++
-        [{ acct := acct, status := .pending, expires := exp, authzs := azs, cert := none }] }
+        [({ acct := acct, status := .pending, expires := exp, authzs := azs, cert := none } : Order)] }
       match pollIndex s2 acct now [o] with
       | (s3, none) => (s3, .ise)
       | (s3, some _) => (s3, .created o)
